@@ -57,6 +57,11 @@ def case_st(draw):
         else:
             steps.append({"op": "cmd", "who": draw(st.sampled_from(["s", "r0", "r1"])), "verb": "SETFORMAT",
                           "args": [str(draw(st.sampled_from([0, 1])))]})
+    if draw(st.integers(0, 14)) == 0:
+        # a large budget (beyond 2^8) and enough bursts to exhaust it
+        big = draw(st.sampled_from([255, 256, 257, 300]))
+        steps = [{"op": "cmd", "who": "r0", "verb": "FAKE_DROP", "args": [str(big)]}] + \
+                [{"op": "burst", "fn": (7 * j) % 2715648, "tn": j % 8} for j in range(big + 4)] + steps[:10]
     return {"cfg": cfg, "sender": draw(st.integers(0, n - 1)), "vers": draw(st.lists(st.sampled_from([0, 1, 1]), min_size=n, max_size=n)),
             "steps": steps}
 
